@@ -31,7 +31,7 @@ def stencil_tables(hdr_rel, rules):
     out = ["enum { %s };" % ", ".join("StencilPosition_%s = %d" % (e, i) for i, e in enumerate(ENUM))]
     text = Src.get(hdr_rel).text
     n = 0
-    for m in re.finditer(r"const\s+Stencil\s+(\w+)\s*=\s*\{([^}]*)\}\s*;", text):
+    for m in re.finditer(r"(?:const\s+)?Stencil\s+(\w+)\s*=\s*\{([^}]*)\}\s*;", text):
         vals = [v.strip() for v in m.group(2).split(",") if v.strip()]
         if len(vals) != 9:
             raise ExtractError("stencil %s does not have 9 entries" % m.group(1))
